@@ -72,6 +72,10 @@ def judge_query(rl, sql, order):
         pan = panic_site((opt.get("panics") or [""])[0]) if opt.get("panics") else ""
         from c05 import err_class
         sig = "optimized-fails:" + (pan or err_class(opt.get("err", "")))
+        if sig.endswith("column-not-found-from-input"):
+            from c17 import has_subquery
+            if has_subquery(sql):
+                sig += ":unnested-subquery"   # (the unoptimized side ran, so the subquery form itself is supported)
         return dict(signature=sig, what=f"{sql[:200]}: unoptimized ok ({len(ref['rows'])} rows), optimized: {opt.get('err', '')[:80]} {opt.get('panics')}", sql=sql), 0, 0, opt
     if not compare(opt["rows"], ref["rows"], order):
         fired = (opt.get("raw", {}).get("rules") or {})
